@@ -351,4 +351,37 @@ def fromSi [Scalar α] (factor v : α) : α := mul factor v
 def stateUpdate [Scalar α] (key : String) (prev value : α) : α :=
   if stateIsTotal key then add prev value else value
 
+
+/-! ## time and calendar vectors (`Evaluator::Time`, `Years`, `Day`, `Month`, `Year`) -/
+
+/-- Days since 1970-01-01 ↦ (year, month, day) in the proleptic Gregorian calendar — what
+`gmtime` computes for `TimeStampUTC` (era / day-of-era decomposition; `/` on `Int` rounds down). -/
+def civilFromDays (z0 : Int) : Int × Int × Int :=
+  let z := z0 + 719468
+  let era := z / 146097
+  let doe := z - era * 146097
+  let yoe := (doe - doe / 1460 + doe / 36524 - doe / 146096) / 365
+  let doy := doe - (365 * yoe + yoe / 4 - yoe / 100)
+  let mp := (5 * doy + 2) / 153
+  let d := doy - (153 * mp + 2) / 5 + 1
+  let m := if mp < 10 then mp + 3 else mp - 9
+  (if m ≤ 2 then yoe + era * 400 + 1 else yoe + era * 400, m, d)
+
+/-- (year, month, day) ↦ days since 1970-01-01 -/
+def daysFromCivil (y0 m d : Int) : Int :=
+  let y := if m ≤ 2 then y0 - 1 else y0
+  let era := y / 400
+  let yoe := y - era * 400
+  let doy := (153 * (if m > 2 then m - 3 else m + 9) + 2) / 5 + d - 1
+  let doe := yoe * 365 + yoe / 4 - yoe / 100 + doy
+  era * 146097 + doe - 719468
+
+/-- `make_sim_time`: start (`time_t`) advanced by a number of nanoseconds, truncated to whole
+seconds (`to_time_t`), then `gmtime`. -/
+def simDate (startSecs : Int) (elapsedNs : Int) : Int × Int × Int :=
+  civilFromDays ((startSecs * 1000000000 + elapsedNs) / 1000000000 / 86400)
+
+/-- `unit::ecl_year` in seconds: 365.25 days -/
+def eclYearSeconds : Nat := 31557600
+
 end OpmVerif.SumFuns
